@@ -45,6 +45,13 @@ def run_reuse(c, P):
     endings = P.get('endings', ENDINGS)
     ending = endings[c.choose(len(endings), 'ending')]
     ck = dict(poll=1e9, ping_rate=0, ping_timeout=None, close_timeout=None, auto_pong=True)
+    quiet2 = 0
+    if ending in ('close-pending-timed', 'eof-timed'):
+        # wall-clock effects: connection 1 ran with its timeouts armed; connection 2 (and the fresh object) then sits through
+        # a quiet period LONGER than every timeout of connection 1 before its bytes arrive (virtual clock; threading.Timer
+        # callbacks fire on it) - nothing armed by connection 1 may act on connection 2
+        ck = dict(poll=1.0, ping_rate=0, ping_timeout=None, close_timeout=P.get('close_timeout', 5.0), auto_pong=True)
+        quiet2 = P.get('quiet', 8)
     compress = ending in ('compressed-then-eof', 'compressed-then-plain') or P.get('compress', False)
     ext = b'Sec-WebSocket-Extensions: permessage-deflate\r\n' if (compress and ending != 'compressed-then-plain') else b''
     # ---------------- world A: the reused object
@@ -76,12 +83,14 @@ def run_reuse(c, P):
     elif ending == 'connect-fail':
         w.scripts[0] = Script(hconn.server_stream(s1), end='eof')
         w.fault_hook = env.SymFaults(['connect'], ['oserror'], 1)
-    elif ending == 'close-pending':
+    elif ending in ('close-pending', 'close-pending-timed'):
         w.scripts[0] = Script(hconn.server_stream(s1), end='eof')
 
         def app1(idx, ev, ws_, gen):
             if ev.name == 'ready':
                 ws_.close(1001, b'bye')
+    elif ending == 'eof-timed':
+        w.scripts[0] = Script(hconn.server_stream(s1), end='eof')
     elif ending == 'compressed-then-plain':
         # connection 1 negotiates permessage-deflate; connection 2's server does not
         w.scripts[0] = Script(hconn.server_stream(s1, extra=b'Sec-WebSocket-Extensions: permessage-deflate\r\n'), end='eof')
@@ -131,7 +140,10 @@ def run_reuse(c, P):
     n_log_1 = len(w.log)
     # ---------------- connection 2 on the same object
     idx2 = w.conn_count
-    w.scripts[idx2] = Script(hconn.server_stream(s2, extra=ext), end='eof')
+    if quiet2:
+        w.scripts[idx2] = Script(hconn.server_stream(s2, extra=ext), end='silence', silent_waits=quiet2)
+    else:
+        w.scripts[idx2] = Script(hconn.server_stream(s2, extra=ext), end='eof')
     state_at_connecting = {}
 
     sender2 = mk_sender(2) if ending == 'compressed-then-eof' else None
@@ -150,7 +162,10 @@ def run_reuse(c, P):
     sock2 = w.socks[-1] if len(w.socks) > n_socks_1 else None
     # ---------------- world B: a fresh object, same connection-2 bytes
     wb = new_world()
-    wb.default_script = Script(hconn.server_stream(s2, extra=ext), end='eof')
+    if quiet2:
+        wb.default_script = Script(hconn.server_stream(s2, extra=ext), end='silence', silent_waits=quiet2)
+    else:
+        wb.default_script = Script(hconn.server_stream(s2, extra=ext), end='eof')
     fresh = L.WebSocket('ws://example.com/', compress=compress)
     recf = hconn.drive(wb, fresh, ck, mk_sender('fresh') if ending == 'compressed-then-eof' else
                        (sender2 if ending == 'compressed-then-plain' else None))
